@@ -76,10 +76,10 @@ PROPS = {
         "assumptions": ["VRF outputs are an environment table produced by the implementation's primitive"],
     },
     "C03": {
-        "coq_deps": ["DirFacts", "DirRefine", "HistComplete", "MarkerBounds"],
+        "coq_deps": ["DirFacts", "DirRefine", "HistComplete", "MarkerBounds", "LookupComplete", "HistEnd"],
         "steps": [{"sub": "dirs", "quick": [0], "thorough": [1]}],
         "rule": "random publish histories on the real Directory (both configurations; cached/uncached; sequential/parallel insertion; labels incl. empty, 1-byte, prefix-related and 330-byte; values incl. empty and 1500-byte; inserts, updates, re-submissions, no-op and duplicate-label batches): after every publish the full database (every node record, the epoch record, every value state) and the returned epoch hash are recomputed by the extracted model; the root hash is recomputed from the history alone by the canonical-trie specification (specroot); every lookup, key-history (Complete, MostRecent 1/n/n+3/random) and audit proof is compared structurally with the model's and its verification verdict and result with the model verifier's; ground truth from an independent version table",
-        "partial": "theorems: unpublished label refused; in every reachable state every tree-related part of a returned history proof (Complete and MostRecent n) verifies against the returned root hash - existence, predecessor-stale, past-marker membership proofs and all future-marker non-membership proofs (future markers are versions above the latest one); that the verifier's remaining checks (VRF proofs, leaf values / epochs, counts and order of entries) pass and yield exactly the true versions is decided by correspondence + oracle",
+        "partial": None,
         "assumptions": ["VRF outputs are an environment table produced by the implementation's primitive"],
     },
     "C04": {
